@@ -629,6 +629,51 @@ func (c *Ctx) MULTIDOC(rule string) []report.Obligation {
 	}
 	out := []report.Obligation{verdict(good && eof, rule, "loadYamlFile :: one pipeline run per decoded document until EOF", c.P.Pos(f.Pos()),
 		"Decode and the per-document closure are called in the same loop, which ends on io.EOF", "only the first YAML document of a file is processed (or the loop does not end on EOF)")}
+	// the loop over the documents is left in two ways only: io.EOF, or an error return. Any other way out (a
+	// `break` on an empty document, on a flag ...) drops the documents that follow.
+	if len(dec) == 1 {
+		_, body := naturalLoop(f, dec[0].Block())
+		isEOF := func(cond ssa.Value, val bool) bool {
+			call, ok := cond.(*ssa.Call)
+			if !ok || !val || staticName(call.Common()) != "errors.Is" || len(call.Call.Args) != 2 {
+				return false
+			}
+			if g, ok := call.Call.Args[1].(*ssa.UnOp); ok {
+				if gl, ok := g.X.(*ssa.Global); ok && gl.Name() == "EOF" {
+					return true
+				}
+			}
+			return false
+		}
+		var bad1 []string
+		nExits := 0
+		for b := range body {
+			for _, sc := range b.Succs {
+				if body[sc] {
+					continue
+				}
+				nExits++
+				// an error return
+				if ret, ok := sc.Instrs[len(sc.Instrs)-1].(*ssa.Return); ok && len(sc.Instrs) <= 3 {
+					if ev := errRet(ret); !isNilOrConst(ev) {
+						continue
+					}
+				}
+				eofExit := factHolds(b, isEOF)
+				for _, ef := range prog.EdgeFacts(b, sc) {
+					if isEOF(ef.Cond, ef.Val) {
+						eofExit = true
+					}
+				}
+				if !eofExit {
+					bad1 = append(bad1, c.P.Pos(b.Instrs[len(b.Instrs)-1].Pos()))
+				}
+			}
+		}
+		sort.Strings(bad1)
+		out = append(out, verdict(len(bad1) == 0 && nExits > 0, rule, "loadYamlFile :: the document loop ends only on io.EOF or an error", c.P.InstrPos(dec[0]),
+			fmt.Sprintf("%d ways out of the loop: io.EOF and error returns", nExits), "the loop over the `---` documents of a file can be left at "+strings.Join(bad1, ", ")+" although the decoder has not reported io.EOF: the documents that follow are never applied"))
+	}
 	// the !reset / !override paths recorded while decoding one document must not leak into the next:
 	// the processor decoded into is allocated per document, or its UnmarshalYAML clears `paths` first
 	perDoc := false
